@@ -1,7 +1,9 @@
 package scen
 
 import (
+	"context"
 	"fmt"
+	"time"
 
 	erpc "github.com/henrylee2cn/erpc/v6"
 
@@ -13,6 +15,7 @@ import (
 func init() {
 	Sched["c03_frames"] = c03Frames
 	Sched["c03_pair"] = c03Pair
+	Sched["c03_deadline"] = c03Deadline
 }
 
 type c03srv struct {
@@ -248,5 +251,64 @@ func c03Pair(p Params) func() {
 		if l := vsched.Live(); l != 0 {
 			vsched.Failf("%d goroutines still blocked after close: %s | %s", l, vsched.BlockedDesc(), ctxt)
 		}
+	}
+}
+
+// c03Deadline: messages with and without a context deadline alternate on one connection and the clock moves on
+// in between; a CALL that arrives later is still answered exactly once (a deadline that belonged to an earlier
+// message does not stay armed on the connection).
+func c03Deadline(p Params) func() {
+	depth := p.Int("depth", 4)
+	return func() {
+		begin()
+		s := newC03srv("none", false)
+		raw, sc := vnet.Pipe(vnet.NewAddr(), vnet.NewAddr())
+		ss, st := s.peer.ServeConn(sc)
+		if !st.OK() {
+			vsched.Failf("ServeConn: %v", st)
+		}
+		var sent []world.Frame
+		seq := int32(100)
+		hist := ""
+		for i := 0; i < depth; i++ {
+			switch vsched.Choose(4, "op") {
+			case 0:
+				hist += "call "
+				seq++
+				f := world.Frame{Seq: seq, Mtype: erpc.TypeCall, Method: s.callRoute, Codec: 'j', Body: []byte(`"ret"`)}
+				raw.Write(f.Bytes())
+				sent = append(sent, f)
+			case 1:
+				// the server pushes with a deadline one hour ahead
+				hist += "push_with_deadline "
+				ctx, cancel := context.WithDeadline(context.Background(), vnet.Now().Add(time.Hour))
+				ss.Push("/client/note", "x", erpc.WithContext(ctx))
+				cancel()
+			case 2:
+				hist += "push "
+				ss.Push("/client/note", "x")
+			case 3:
+				hist += "two_hours_pass "
+				vnet.AdvanceClock(2 * time.Hour)
+			}
+			vsched.Quiesce()
+		}
+		// the server's pushes are unsolicited frames by design: judge the replies only
+		out, _, _ := world.ParseFrames(raw.Peer().Written)
+		replies := map[int32]int{}
+		for _, f := range out {
+			if f.Mtype == erpc.TypeReply {
+				replies[f.Seq]++
+			}
+		}
+		for _, f := range sent {
+			if s.calls[f.Seq] != 1 {
+				vsched.Failf("CALL seq %d was handled %d times | %s", f.Seq, s.calls[f.Seq], hist)
+			}
+			if replies[f.Seq] != 1 {
+				vsched.Failf("CALL seq %d got %d replies on a connection that stayed up (session healthy=%v) | %s", f.Seq, replies[f.Seq], ss.Health(), hist)
+			}
+		}
+		vsched.Logf("%s", hist)
 	}
 }
